@@ -2,9 +2,13 @@ from pyvc.api import Registry
 
 
 def build_registry():
-    from . import sort_c, conversion_c
+    from . import sort_c, conversion_c, view_c, gfa_c
     reg = Registry()
     sort_c.register(reg)
     conversion_c.register(reg)
     conversion_c.register_to_stable(reg)
+    sort_c.register_sort_loops(reg)
+    sort_c.register_process_alignment(reg)
+    view_c.register(reg)
+    gfa_c.register(reg)
     return reg
